@@ -879,6 +879,21 @@ pub fn run(args: &Args, out: &mut dyn Write) -> Stats {
         let mut cfg = gen_cfg(&mut r, &mut stats);
         let kind = if i % 3 == 2 { 2 } else { 1 };
         if kind == 2 {
+            // a URL of about the size the Captive-Portal option can hold (255 * 8 - 2 = 2038 octets) and beyond:
+            // what the option cannot carry has to be refused by the loader, not wrapped into the length octet
+            if r.chance(1, 12) {
+                let len = *r.pick(&[2030u64, 2037, 2038, 2039, 2040, 2046, 2047, 3000, 70000]) as usize;
+                let mut u = String::from("https://portal.example/");
+                while u.len() < len {
+                    u.push(r.range(0x61, 0x7a) as u8 as char);
+                }
+                if r.chance(1, 2) {
+                    cfg.captive = Some(u);
+                } else {
+                    cfg.cp = Tri::Val(u);
+                }
+                stats.bump("url.around-2038");
+            }
             sanitise_for_yaml(&mut cfg);
             stats.bump("kind.yaml");
         } else {
